@@ -192,7 +192,7 @@ func (g *vgen) msg(mi *msgInfo, depth int, density int) *V {
 			}
 			continue
 		}
-		if g.r.intn(10) >= density {
+		if g.r.intn(10) >= density && fi.fd.Cardinality() != protoreflect.Required {
 			continue
 		}
 		out.L[i] = gg.field(fi, depth)
@@ -258,6 +258,17 @@ func (g *vgen) field(fi fieldInfo, depth int) *V {
 		}
 		return g.msg(g.si.byName[fd.Message().FullName()], depth-1, 3)
 	default:
+		if presScalar(fd) {
+			// explicit presence (proto2 types below a generated message): unset is a value of its own; a required field is
+			// left unset less often, so that initialised and uninitialised messages both occur at every size
+			if (fd.Cardinality() == protoreflect.Required && r.intn(6) == 0) || (fd.Cardinality() != protoreflect.Required && r.intn(3) == 0) {
+				return vNil
+			}
+			if v := g.scalar(fd); v.K != 'n' {
+				return v
+			}
+			return vBytes(nil) // bytes: set to empty
+		}
 		return g.scalar(fd)
 	}
 }
